@@ -195,7 +195,18 @@ def gen_case(tp, tier):
                 ops.append(['nc', ['register', 'register', 'unregister',
                                    'notify'][k], oi, msg, tp.draw(3)])
             ops.append(['nc', 'notify', oi, msg, 0])
-    return {'knobs': knobs, 'ops': ops}
+    case = {'knobs': knobs, 'ops': ops}
+    if tp.draw(4) == 0:
+        # actions registered before the library starts: StartUp runs them in
+        # registration order when the start-up is finished; one of them may
+        # defer another action, which - the start-up being finished - runs
+        # at once
+        st = []
+        for i in range(1 + tp.draw(3)):
+            st.append(['defer', i, 10 + i] if tp.draw(3) == 0
+                      else ['plain', i])
+        case['startup'] = st
+    return case
 
 
 def shrink_candidates(case):
@@ -453,6 +464,19 @@ class Registry:
 
 def run_case(case, tape, ctx):
     knobs = case['knobs']
+    startup_log = []
+    if case.get('startup'):
+        import sc3.base.systemactions as sac0
+
+        def mk_start(item):
+            def act():
+                startup_log.append(item[1])
+                if item[0] == 'defer':
+                    sac0.StartUp.defer(
+                        lambda: startup_log.append(item[2]))
+            return act
+        for item in case['startup']:
+            sac0.StartUp.add(mk_start(item))
     w = world.RtWorld(tape, knobs, seed=1).boot()
     k = w.kernel
     main = w.main
@@ -463,6 +487,18 @@ def run_case(case, tape, ctx):
     import sc3.base.netaddr as snad
     import sc3.base.systemactions as sac
     import sc3.base.model as smdl
+    if case.get('startup'):
+        want = []
+        for item in case['startup']:
+            want.append(item[1])
+            if item[0] == 'defer':
+                want.append(item[2])
+        stats['startup-actions'] = len(want)
+        if startup_log != want:
+            viol.add('C18-4', 'StartUp-actions-at-startup',
+                     f'actions registered before the start: ran '
+                     f'{startup_log}, registered (with what they defer, '
+                     f'which runs at once) {want}')
     import sc3.base.clock as sclk
     import sc3.base._osclib as oli
     import sc3.base._oscinterface as sosc
